@@ -141,6 +141,126 @@ impl COp {
     }
 }
 
+
+/// Concrete value of the chain's current tensor, used only as a guard: a
+/// program whose `Expand` / `ConstantOfShape` terminal would allocate a huge
+/// tensor in the *reference* run (e.g. `Cast(2.0 / 0.0, int64)` = i32::MAX
+/// elements) is not generated. `None` = not statically known (treated as huge).
+#[derive(Clone, Debug)]
+struct Val {
+    dims: Vec<usize>,
+    vals: Vec<f64>,
+    float: bool,
+}
+
+impl COp {
+    fn interp(&self, v: &Val) -> Option<Val> {
+        let n0 = v.dims.first().copied();
+        let inner: usize = v.dims.iter().skip(1).product();
+        let bc = |v: &Val, vec1: bool| -> Vec<usize> { if vec1 && v.dims.is_empty() { vec![1] } else { v.dims.clone() } };
+        match self {
+            COp::None => Some(v.clone()),
+            COp::Shape => Some(Val { dims: vec![v.dims.len()], vals: v.dims.iter().map(|d| *d as f64).collect(), float: false }),
+            COp::Gather { idx, vec } => {
+                let n = n0? as i64;
+                let i = if *idx < 0 { idx + n } else { *idx };
+                if i < 0 || i >= n {
+                    return None;
+                }
+                let vals = v.vals[i as usize * inner..(i as usize + 1) * inner].to_vec();
+                let mut dims: Vec<usize> = v.dims[1..].to_vec();
+                if *vec {
+                    dims.insert(0, 1);
+                }
+                Some(Val { dims, vals, float: v.float })
+            }
+            COp::Slice { s, e } => {
+                let n = n0? as i64;
+                let cl = |i: i64| -> i64 { (if i < 0 { i + n } else { i }).clamp(0, n) };
+                let (a, b) = (cl(*s), cl((*e).min(i32::MAX as i64)));
+                let len = (b - a).max(0) as usize;
+                let vals = v.vals[a as usize * inner..(a as usize + len) * inner].to_vec();
+                let mut dims = v.dims.clone();
+                dims[0] = len;
+                Some(Val { dims, vals, float: v.float })
+            }
+            COp::Concat { c, cur_first } => {
+                if v.dims.len() != 1 {
+                    return None;
+                }
+                let mut vals = v.vals.clone();
+                if *cur_first { vals.push(*c as f64) } else { vals.insert(0, *c as f64) }
+                Some(Val { dims: vec![vals.len()], vals, float: v.float })
+            }
+            COp::Arith { op, c, cur_left, vec1 } => {
+                let f = |x: f64| -> Option<f64> {
+                    let (a, b) = if *cur_left { (x, *c) } else { (*c, x) };
+                    if v.float {
+                        let (a, b) = (a as f32, b as f32);
+                        Some(match *op { "Add" => a + b, "Sub" => a - b, "Mul" => a * b, _ => a / b } as f64)
+                    } else {
+                        let (a, b) = (a as i64, b as i64);
+                        Some(match *op {
+                            "Add" => a + b,
+                            "Sub" => a - b,
+                            "Mul" => a * b,
+                            _ => {
+                                if b == 0 {
+                                    return None;
+                                }
+                                a / b
+                            }
+                        } as f64)
+                    }
+                };
+                let vals: Option<Vec<f64>> = v.vals.iter().map(|x| f(*x)).collect();
+                Some(Val { dims: bc(v, *vec1), vals: vals?, float: v.float })
+            }
+            COp::Neg => Some(Val { dims: v.dims.clone(), vals: v.vals.iter().map(|x| -x).collect(), float: v.float }),
+            COp::Equal { c } => Some(Val { dims: v.dims.clone(), vals: v.vals.iter().map(|x| (*x == *c as f64) as i32 as f64).collect(), float: false }),
+            COp::WhereB { a, b, float } => Some(Val { dims: bc(v, true), vals: v.vals.iter().map(|x| if *x != 0.0 { *a } else { *b }).collect(), float: *float }),
+            COp::WhereC { cond, cur_first, c } => {
+                let take_cur = *cond == *cur_first;
+                Some(Val { dims: bc(v, true), vals: v.vals.iter().map(|x| if take_cur { *x } else { *c as f64 }).collect(), float: v.float })
+            }
+            COp::Cast { to } => {
+                let to_float = *to == Dt::F32;
+                let vals = v
+                    .vals
+                    .iter()
+                    .map(|x| if v.float && !to_float { if x.is_nan() { 0.0 } else { x.trunc().clamp(i32::MIN as f64, i32::MAX as f64) } } else { *x })
+                    .collect();
+                Some(Val { dims: v.dims.clone(), vals, float: to_float })
+            }
+            COp::Unsqueeze => {
+                let mut dims = v.dims.clone();
+                dims.insert(0, 1);
+                Some(Val { dims, vals: v.vals.clone(), float: v.float })
+            }
+            COp::Squeeze { axes } => {
+                let mut dims = v.dims.clone();
+                if *axes {
+                    if dims.first() != Some(&1) {
+                        return None;
+                    }
+                    dims.remove(0);
+                } else {
+                    dims.retain(|d| *d != 1);
+                }
+                Some(Val { dims, vals: v.vals.clone(), float: v.float })
+            }
+        }
+    }
+}
+
+/// Is the shape described by `v` small enough to be materialised safely?
+fn small_shape(v: &Option<Val>) -> bool {
+    match v {
+        Some(v) => v.vals.iter().all(|d| d.is_finite() && *d >= -64.0 && *d <= 64.0) && v.vals.iter().map(|d| d.abs().max(1.0)).product::<f64>() <= 4096.0,
+        None => false,
+    }
+}
+
 /// level 2 = full alphabet, 1 = medium, 0 = small. Index 0 is always `None`.
 fn alphabet(level: usize) -> Vec<COp> {
     let mut v = vec![COp::None, COp::Shape];
@@ -282,6 +402,26 @@ pub fn templates(thorough: bool) -> Vec<Template> {
         };
         if !term_ok {
             return None;
+        }
+        if term == 2 || term == 3 {
+            let d0s: &[usize] = if meta == Meta::Fixed { &[2] } else { &[2, 1, 3] };
+            for d0 in d0s {
+                let mut v = Some(match p[0] {
+                    0..=3 => Val { dims: vec![3], vals: vec![*d0 as f64, 2.0, 3.0], float: false },
+                    4 => Val { dims: vec![], vals: vec![3.0], float: false },
+                    5 => Val { dims: vec![], vals: vec![3.0], float: true },
+                    6 => Val { dims: vec![], vals: vec![2.5], float: true },
+                    7 => Val { dims: vec![2], vals: vec![2.0, -2.0], float: false },
+                    _ => Val { dims: vec![2], vals: vec![2.0, 3.0], float: true },
+                });
+                for o in &ops {
+                    v = v.and_then(|v| o.interp(&v));
+                }
+                if !small_shape(&v) {
+                    // would allocate a huge tensor (or is not statically known): not generated
+                    return None;
+                }
+            }
         }
         let mut b = B::new();
         let x = b.input("x", Dt::F32, &[2, 2, 3], meta, None);
